@@ -6,6 +6,9 @@ package c10
 //   crafted 251-bit key sets x every key: Prove -> juno's VerifyProof and the independent verifier agree with the
 //   truth; every single corruption of node / key / root / claimed value is rejected (or recognised as still valid).
 // Part B (range_test.go): every range claim over height-<=3 embedded tries, with / without boundary proofs.
+// Part B2 (rangeshape_test.go): empty-range claims with an absent `first` at every divergence point (every present key x
+//   bit position x three tails) of the Part B tries and of the crafted 251-bit key subsets, each with its own
+//   GetRangeProof(first, first); exact classification of accepted false claims by shape.
 // Part C (rpc_test.go): starknet_getStorageProof (v9, v10; both state backends) on enumerated small chains, checked
 //   by the independent verifier against the block's global state root.
 // Part D (batch_test.go): every sequence of <= L keys proven into ONE node set (what the RPC and GetRangeProof do), every
@@ -25,6 +28,8 @@ package c10
 //                                                       root is a binary node; missing proof nodes are read as absence; a leaf
 //                                                       directly under a binary boundary node is never unset (authors' TODO);
 //                                                       trie2 proofToPath links ONE node object for equal-hash siblings -> panic
+//                                                       (trie2: kept only for shapes S1 / S2 of rangeshape_test.go; trie2 accepts
+//                                                       NO false empty-range claim - that has a key of its own)
 // VerifyProof / VerifyRangeProof have no production caller; Prove (used by the RPC) showed no defect.
 
 import (
